@@ -208,12 +208,48 @@ def if_range_values(res200):
     ]
 
 
+HIST_SIZES = [0, 3, 10, 11, 101]
+
+
 def shards(tier, seed):
-    return [("files", size, ci) for size in SIZES[tier] for ci in range(len(CHUNKS))]
+    out = [("files", size, ci) for size in SIZES[tier] for ci in range(len(CHUNKS))]
+    out += [("history", k) for k in range(len(HIST_SIZES))]
+    return out
+
+
+def run_history(r, first):
+    """One path whose file is replaced between requests (other size, same size/other bytes): a response must always describe
+    the file as it is now - no state may survive from an earlier response for the same path."""
+    import itertools as it
+    t = Tree()
+    try:
+        path = os.path.join(t.dir, "same-path.bin")
+        others = [x for x in HIST_SIZES if x != first]
+        for seq in [(first, a, b) for a, b in it.permutations(others, 2)]:
+            for step, size in enumerate(seq):
+                data = bytes((i * 7 + step) % 251 for i in range(size))
+                with open(path, "wb") as f:
+                    f.write(data)
+                os.utime(path, (1_700_000_000 + step, 1_700_000_000 + step))
+                for iface in ("wsgi", "asgi", "zerocopy"):
+                    for header, specs in ((None, None), ("bytes=0-1", [("fl", 0, 1)]), ("bytes=-2", [("s", 2)]), (f"bytes={max(size - 1, 0)}-", [("f", max(size - 1, 0))]), ("bytes=0-0,2-", [("fl", 0, 0), ("f", 2)])):
+                        for method in ("GET", "HEAD"):
+                            res = call(iface, path, 4, method, [("Range", header)] if header else [])
+                            r.count("evaluations")
+                            r.count("distinct_nontrivial")
+                            for kind, text in judge(res, None, size, specs, True, method, data):
+                                r.violation(f"history:{kind}:{iface}", {"history": list(seq), "step": step, "iface": iface, "method": method, "range": header},
+                                            f"{iface} {method} Range={header!r} after the file at one path went through sizes {list(seq[:step + 1])}: {text}")
+        r.sample({"history_sizes": [first] + others[:2], "requests": "no Range, single, suffix, last byte, two ranges"})
+    finally:
+        t.close()
 
 
 def run_shard(desc, tier):
     r = R()
+    if desc[0] == "history":
+        run_history(r, HIST_SIZES[desc[1]])
+        return r
     _, size, ci = desc
     chunk = CHUNKS[ci]
     t = Tree()
@@ -268,6 +304,10 @@ def finish(merged, tier):
 
 def replay(w):
     r = R()
+    if "history" in w:
+        run_history(r, w["history"][0])
+        r.viol = {k: v for k, v in r.viol.items() if v[1]["history"] == w["history"] and v[1]["iface"] == w["iface"]}
+        return bool(r.viol), {"violations": sorted(r.viol), "texts": [v[2][:300] for v in r.viol.values()]}
     t = Tree()
     try:
         size = w["size"]
